@@ -17,22 +17,22 @@ fn per_baseline(t: Tier) -> u64 {
 
 fn budget(t: Tier) -> u64 {
     match t {
-        Tier::Quick => 36 * per_baseline(t),
-        Tier::Thorough => 216 * per_baseline(t),
+        Tier::Quick => 42 * per_baseline(t),
+        Tier::Thorough => 252 * per_baseline(t),
     }
 }
 
-const LOADS: [&str; 6] = ["idle", "closed_loop", "flood", "idle_long", "health_fd_exhausted", "recv_errors"];
+const LOADS: [&str; 7] = ["idle", "closed_loop", "flood", "idle_long", "health_fd_exhausted", "recv_errors", "stats_dir_gone"];
 
 fn baseline(b: u64) -> Plan {
     let bseed = Rng::derive(crate::driver::base_seed().wrapping_add(b), "c19-baseline").next_u64() >> 1;
     let mut rng = Rng::derive(bseed, "c19");
-    let load = LOADS[(b % 6) as usize];
+    let load = LOADS[(b % 7) as usize];
     let mut plan = Plan::new("C19", &format!("c19.{}", load), bseed);
     let mut s = ServerSpec::basic(Mode::F, &random_seed_hex(&mut rng));
-    s.workers = [1i64, 4, 16][((b / 6) % 3) as usize];
+    s.workers = [1i64, 4, 16][((b / 7) % 3) as usize];
     s.source = if rng.chance(1, 2) { ConfigSource::File } else { ConfigSource::Env };
-    if (b / 18) % 2 == 1 {
+    if (b / 21) % 2 == 1 || load == "stats_dir_gone" {
         s.client_stats = Some("on".into());
         s.persist_dir = Some("/tmp".into());
         s.status_interval = Some(*rng.pick(&[1i64, 10]));
@@ -60,6 +60,17 @@ fn baseline(b: u64) -> Plan {
                 plan.step(t0 + 300_000 + rng.below(2_000_000), Action::SetFault { kind: "recv_err".into(), permille: 0 });
             }
         }
+        "stats_dir_gone" => {
+            // per-client statistics with a one-second interval, steady traffic, and from some
+            // moment on the statistics file cannot be created any more (directory removed, disk
+            // gone): the reporter's handling of that must not delay the exit
+            s.status_interval = Some(1);
+            let clients = 1 + rng.below(4) as u32;
+            for c in 0..clients {
+                plan.step(20_000 + rng.below(500), Action::ClosedLoop { sock: c, protos: vec![P::Classic, P::Ietf], count: 10_000, think_us: *rng.pick(&[2_000u64, 10_000]), timeout_ms: 200 });
+            }
+            plan.step(100_000 + rng.below(400_000), Action::SetFault { kind: "file_create_err".into(), permille: 1000 });
+        }
         "health_fd_exhausted" => {
             // health checks while the process is out of file descriptors (accept fails with EMFILE
             // and the connection stays queued), some requests as well
@@ -67,7 +78,7 @@ fn baseline(b: u64) -> Plan {
             let t0 = 20_000 + rng.below(30_000);
             plan.step(t0, Action::FdExhaustion { on: true });
             for k in 0..(1 + rng.below(3)) {
-                plan.step(t0 + 1_000 + k * rng.below(40_000), Action::Health { id: k as u32 });
+                plan.step(t0 + 1_000 + k * rng.below(40_000), Action::Health { id: k as u32, reset: false });
             }
             let mut ctr = bseed ^ 0xfd;
             for k in 0..rng.below(6) {
@@ -102,14 +113,19 @@ fn baseline(b: u64) -> Plan {
             plan.world.rcv_cap = 64;
             // what floods in: valid requests, or datagrams no worker will answer (another server's
             // SRV, garbage, empty, too short), or both alternating
-            let payload = ["valid", "wrong_srv", "mixed", "garbage", "empty", "short"][((b / 6 + b / 36) % 6) as usize];
+            let payload = ["valid", "wrong_srv", "mixed", "garbage", "empty", "short"][((b / 7 + b / 42) % 6) as usize];
             plan.params.insert(format!("flood_{}", payload), 1);
             plan.step(20_000, Action::Flood { sock: 0, proto: if rng.chance(1, 2) { P::Classic } else { P::Ietf }, interval_ns: 200_000, count: 20_000, payload: Some(payload.into()) });
         }
     }
     // the baseline covers 250 ms of serving (a simulated minute for idle_long); runs with a
     // signal go on for 3.6 s after the end of the baseline
-    plan.world.horizon_ms = if load == "idle_long" { 20_000 + rng.below(40_000) } else { 270 };
+    plan.world.horizon_ms = match load {
+        "idle_long" => 20_000 + rng.below(40_000),
+        // long enough for the reporter to run into the failing file creation a few times
+        "stats_dir_gone" => 2_500 + rng.below(3_000),
+        _ => 270,
+    };
     plan.server = Some(s);
     plan
 }
@@ -129,15 +145,17 @@ fn baseline_extent(b: u64) -> (u64, u64) {
         let out = crate::exec::run(&plan, dsim::Tape::search(plan.seed));
         let w = &out.world;
         let workers = plan.server.as_ref().unwrap().workers as usize;
-        let mut serving: Vec<u64> = Vec::new();
+        // a worker is serving once it has armed its statistics timer (the last thing `Server::new`
+        // does before the event loop): the first TimerArm of each task of the server process
+        let mut serving: BTreeMap<usize, u64> = BTreeMap::new();
         for rec in &w.history {
-            if let dsim::Ev::Log { msg, .. } = &rec.ev {
-                if msg.starts_with("Deliberate response errors") {
-                    serving.push(rec.step);
+            if let (dsim::Ev::TimerArm { .. }, Some(t)) = (&rec.ev, rec.task) {
+                if w.procs[w.tasks[t].proc].sut {
+                    serving.entry(t).or_insert(rec.step);
                 }
             }
         }
-        let start = if serving.len() >= workers { *serving.iter().max().unwrap() + 1 } else { w.steps };
+        let start = if serving.len() >= workers { *serving.values().max().unwrap() + 1 } else { w.steps };
         (start, w.steps)
     })
     .unwrap_or((u64::MAX / 4, u64::MAX / 4));
@@ -260,6 +278,7 @@ fn check(plan: &Plan, out: &RunOut) -> CheckOut {
         "idle_long" => "load_idle_long",
         "health_fd_exhausted" => "load_health_fd_exhausted",
         "recv_errors" => "load_recv_errors",
+        "stats_dir_gone" => "load_stats_dir_gone",
         _ => "load_flood",
     });
     co.sample = Some(serde_json::json!({
@@ -279,7 +298,7 @@ pub fn property() -> Property {
         gen,
         check,
         finalize: no_finalize,
-        rule: "baselines = real main() booted with num_workers {1,4,16} x client_stats off/on x load {idle, long idle (20-60 simulated s), health checks while accept() fails with EMFILE, closed-loop clients while recv_from keeps failing, closed-loop clients, open-loop flood of one worker with inter-arrival time below the modelled service time, carrying valid requests / another server's SRV / both alternating / garbage / empty datagrams / too-short requests}; for each baseline (fixed plan + tape) the scheduling points after every worker has started serving are counted and SIGINT or SIGTERM is delivered at point k — 40 stratified points per baseline (quick) or 600 (thorough; every point when the baseline has fewer); a fifth of the runs deliver a second signal; the run continues 3.6 simulated s; non-trivial = the handler ran; distinct = distinct schedule fingerprints",
+        rule: "baselines = real main() booted with num_workers {1,4,16} x client_stats off/on x load {idle, long idle (20-60 simulated s), health checks while accept() fails with EMFILE, closed-loop clients while recv_from keeps failing, closed-loop clients with per-client statistics while the statistics file can no longer be created, closed-loop clients, open-loop flood of one worker with inter-arrival time below the modelled service time, carrying valid requests / another server's SRV / both alternating / garbage / empty datagrams / too-short requests}; for each baseline (fixed plan + tape) the scheduling points after every worker has started serving are counted and SIGINT or SIGTERM is delivered at point k — 40 stratified points per baseline (quick) or 600 (thorough; every point when the baseline has fewer); a fifth of the runs deliver a second signal; the run continues 3.6 simulated s; non-trivial = the handler ran; distinct = distinct schedule fingerprints",
         assumptions: &["exit deadline: 3 simulated seconds after the handler ran (100 ms poll timeout + 1 s reporter sleep + margin)", "flood verdicts depend on the service-time model: ~0.5 ms per request against one datagram every 0.2 ms"],
         real: REAL_F,
         stub: STUB,
